@@ -5270,10 +5270,12 @@ func (a *Agent) TaskDispatch(RequestID uint32, CommandID uint32, Parser *parser.
 											DemonInfo.Reason = ""
 											DemonInfo.Pivots.Parent = a
 
+											// persist the (re)activated agent before the link that refers to it
+											teamserver.AgentUpdate(DemonInfo)
+
 											a.Pivots.Links = append(a.Pivots.Links, DemonInfo)
 											teamserver.LinkAdd(a, DemonInfo)
 
-											teamserver.AgentUpdate(DemonInfo)
 											teamserver.AgentUpdate(a)
 										}
 
